@@ -49,7 +49,7 @@ class Report:
             if kind.startswith('bounds:') or kind == 'deref-null':
                 key = o['id'].split('|', 2)[2] if False else None
             fnname = o['function']
-            if kind in ('invariant', 'post', 'returns'):
+            if kind in ('invariant', 'post', 'returns', 'ownership'):
                 key = '%s:%s' % (kind, o['name'])
             else:
                 stack = o.get('call_stack') or []
